@@ -159,6 +159,10 @@ func (c *hReportCodec) Verify(cd llotypes.ChannelDefinition) error {
 // ---------- plugin construction through the real factory ----------
 
 type hPlugin struct {
+	prevBuf []byte // the host's buffer for PreviousOutcome
+	// retirement-report bytes returned by Reports() of this plugin, with copies taken at once
+	heldRR     [][]byte
+	heldRRCopy []string
 	p      *llo.Plugin
 	cache  *hCache
 	retire *hShouldRetire
@@ -303,11 +307,14 @@ var outcomeErrClasses = [][2]string{
 func (hp *hPlugin) callOutcome(seqNr uint64, prev llo.Outcome, aos []types.AttributedObservation) (llo.Outcome, []byte, J) {
 	var prevB []byte
 	if seqNr > 1 {
-		var err error
-		prevB, err = hp.p.OutcomeCodec.Encode(prev)
+		enc, err := hp.p.OutcomeCodec.Encode(prev)
 		if err != nil {
 			return llo.Outcome{}, nil, resErr("encode-prev", err)
 		}
+		// the node hands the previous outcome over in ONE buffer per plugin that it overwrites in place each round
+		// (a plugin that remembers the slice it was given, not a copy, then compares the buffer with itself)
+		hp.prevBuf = append(hp.prevBuf[:0], enc...)
+		prevB = hp.prevBuf
 	}
 	outB, err := hp.p.Outcome(context.Background(), ocr3types.OutcomeContext{SeqNr: seqNr, PreviousOutcome: prevB}, nil, aos)
 	if err != nil {
